@@ -2395,3 +2395,24 @@ package goatlang
 //@   ensures#others forall k2 int, x Value :: trig(k2, x) && k2 != key ==> (holds(*m, k2, x) <==> old(holds(*m, k2, x)))
 //@   ensures#keys forall k2 int :: trig(k2) && k2 != key ==> (has(*m, k2) <==> old(has(*m, k2)))
 //@   ensures#total m.total == old(m.total) - ite(old(has(*m, key)), 1, 0)
+//@
+//@ -- bound methods: the wrapper puts the receiver under the arguments and runs the method body
+//@ func newMethod
+//@   property C09 C12 C17
+//@   requires f != nil && f.Args >= 1 && (f.Variadic ==> f.Args >= 2)
+//@   allocates funcT
+//@   nopanic
+//@   ensures#func result.t == TypeFunc && is(result.value, *funcT) && isfresh(as(result.value, *funcT))
+//@   ensures#arity as(result.value, *funcT).Args == f.Args - 1 && as(result.value, *funcT).Rets == f.Rets && as(result.value, *funcT).Variadic == f.Variadic
+//@   ensures#variadicType as(result.value, *funcT).VariadicType == f.VariadicType
+//@ func newMethod closure 0
+//@   property C09 C12
+//@   captures#shape xArgs == f.Args - 1 && xArgs >= 0 && f != nil
+//@   requires v != nil && len(v.stack) >= xArgs
+//@   modifies *
+//@   ensures#results len(v.stack) >= old(len(v.stack)) - xArgs
+//@   ensures#frame forall j int :: 0 <= j && j < old(len(v.stack)) - xArgs ==> v.stack[j] == old(v.stack[j])
+//@   ensures#restore v.frame == old(v.frame) && v.globals == old(v.globals) && len(v.backtrace) == old(len(v.backtrace))
+//@   callsite#receiver funcT.Value: len(v.stack) == old(len(v.stack)) + 1 && v.stack[old(len(v.stack)) - xArgs] == obj
+//@   callsite#args funcT.Value: forall j int :: 0 <= j && j < xArgs ==> v.stack[old(len(v.stack)) - xArgs + 1 + j] == old(v.stack[old(len(v.stack)) - xArgs + j])
+//@   callsite#below funcT.Value: forall j int :: 0 <= j && j < old(len(v.stack)) - xArgs ==> v.stack[j] == old(v.stack[j])
